@@ -42,11 +42,24 @@ ADDED3 = {
     'C01': '_complete_getattr return-statement loop proved free of index/attribute errors for return statements of any '
            'shape (stated parso shape preconditions); create_context.from_scope_node handles every scope kind the '
            'enclosing-scope walk can return (async comprehensions included).',
-    'C03': 'is_big_annoying_library: only the top-level package name switches flow analysis off.',
-    'C04': 'memoised-generator round (shared with C15): every consumer of a cached class hierarchy sees all elements.',
-    'C05': 'FolderIO.walk pruning (shared with C19, all subsets of <= 3 sub-folders): the candidate scan loses no folder.',
-    'C07': 'Structural: Script reads the file behind `path` as bytes (no newline translation before the refactoring).',
-    'C09': '_load_python_module: parse through the cache with the file as source; tree and code lines of one cache entry.',
+    'C03': 'is_big_annoying_library: only the top-level package name switches flow analysis off; header rule '
+           '(_get_global_filters_for_name); get_flow_branch_keyword (a branch is identified by its keyword leaf); '
+           'ClassFilter._equals_origin_scope (private attributes visible only from inside the class); '
+           'GlobalNameFilter.values (every name of a global statement of the module).',
+    'C04': 'memoised-generator round (shared with C15): every consumer of a cached class hierarchy sees all elements; '
+           '_BaseTreeInstance.get_filters (a self-attribute filter for every non-compiled MRO class, every class filter '
+           'passed on); GlobalNameFilter.values (shared with C03).',
+    'C05': 'FolderIO.walk pruning (shared with C19, all subsets of <= 3 sub-folders) and search_in_file_ios: the candidate '
+           'scan loses no folder and no passing file; star-import closure (shared with C10); private-attribute visibility '
+           '(shared with C03).',
+    'C07': 'Structural: Script reads the file behind `path` as bytes (no newline translation before the refactoring); '
+           'parse_and_get_code and _check_fs (shared): the text a refactoring rewrites is the text given / the file\'s own bytes.',
+    'C09': '_load_python_module: parse through the cache with the file as source; tree and code lines of one cache entry; '
+           'parse_and_get_code: the text parsed is the text given or the file as it is now.',
+    'C08': 'signature_time_cache wrapper (hit only for an equal, unexpired key; None never stored); parse_and_get_code (shared).',
+    'C11': 'TreeSignature.get_param_names / bind (self removed after star resolution); keyword-only loop of process_params '
+           '(first collected parameter wins); docstring / tree-name replay libraries.',
+    'C13': 'filter_names shared with C04 (a name is dropped only as an identical duplicate); key listing replay.',
     'C10': '_prepare_infer_import (imported name split off the from-part, also when it is empty), infer_import (attribute '
            'before sub-module), import_module against a _gcd_import spec function (which finder lookup, with which '
            'arguments; kind of module loaded), transform_path_to_dotted (a shortest candidate, package flag), '
@@ -57,8 +70,12 @@ ADDED3 = {
            'remembered outlives its Script).',
     'C15': '_memoize_default wrapper (default stored before the function is entered; hit without entering; no stale default '
            'after an exception), _limit_value_infers wrapper (per-node cap), memoised-generator round (sentinel in place '
-           'while the generator runs); guarded cores only reachable through their guard (inventory).',
-    'C16': 'FolderIO.walk pruning keeps the kept folders in order (shared with C19): project scan order = listing order.',
+           'while the generator runs); guarded cores only reachable through their guard (inventory); '
+           'BaseFunctionExecutionContext.infer: the return annotation of an ordinary function is evaluated only behind '
+           'get_return_values (effect obligation).',
+    'C16': 'FolderIO.walk pruning keeps the kept folders in order (shared with C19): project scan order = listing order; '
+           'effective-path contracts of C20 (no query changes the path later queries resolve against); goto on a call '
+           'keyword collects the parameter of every signature of every callee value.',
     'C17': '_load_python_module (shared with C09); tree names spelled and positioned as their token (replayed on non-NFKC '
            'identifiers); Script reads its file as bytes.',
     'C18': 'create_instance_context: the context of a self.x definition is the method context refined to the innermost '
